@@ -193,3 +193,10 @@ Theorem C18_no_inplace_arithmetic_on_stored_arrays : List.length T7inplace.inpla
   forallb C14_tie.not_in_fit_algorithm T7inplace.inplace_sites = true.
 Proof. exact (conj (f_equal (@List.length _) C14_tie.inplace_sites_known) (f_equal (forallb _) C14_tie.inplace_sites_known)). Qed.
 Print Assumptions C18_no_inplace_arithmetic_on_stored_arrays.
+
+(* the functions of this property whose Gallina counterpart is hand-written (or that only the oracles reach) still read, statement by statement, as they did when
+   the model was last validated against them (Gen/T9text.v regenerated from the source on every run; Proofs/Text_C18.v holds the validated text) *)
+From XV Require Gen.T9text Proofs.Text_C18.
+Theorem C18_hand_modelled_functions_read_as_validated : Text_C18.all_frozen.
+Proof. exact Text_C18.all_frozen_holds. Qed.
+Print Assumptions C18_hand_modelled_functions_read_as_validated.
